@@ -31,6 +31,10 @@ type c12Layout struct {
 	Cto       int32  `json:"cto"`      // composition offset of the first sample
 	LeadIn    int    `json:"lead_in"`  // unused bytes at the start of each mdat payload
 	AudioOnly bool   `json:"audio_only,omitempty"`
+	// Form of the reference track's runs: 0 explicit durations, one trun per traf; 1 uniform durations carried by
+	// the tfhd default; 2 uniform durations carried by the trex default; 3 two truns per traf (explicit); 4 two
+	// truns per traf with the tfhd default duration
+	Form int `json:"form,omitempty"`
 }
 
 type c12Built struct {
@@ -70,6 +74,12 @@ func c12Build(l *c12Layout) *c12Built {
 	if l.AudioOnly {
 		media = "audio"
 	}
+	switch l.Form {
+	case 1, 4:
+		spec.Defaults = 1
+	case 2:
+		spec.Defaults = 2
+	}
 	spec.Tracks = append(spec.Tracks, gen.FTrack{ID: 1, Timescale: 1000, Media: media, BaseTime: l.Base})
 	if l.Tracks == 2 {
 		spec.Tracks = append(spec.Tracks, gen.FTrack{ID: 2, Timescale: 1000, Media: "audio", BaseTime: l.Base})
@@ -82,6 +92,9 @@ func c12Build(l *c12Layout) *c12Built {
 			var ss []gen.FSample
 			for j := 0; j < ns; j++ {
 				s := gen.FSample{Dur: uint32(2 + (fi+j)%2), Size: uint32(1 + (fi+j)%3), Flags: gen.FlagsNonSync}
+				if l.Form == 1 || l.Form == 2 || l.Form == 4 {
+					s.Dur = 3
+				}
 				if j == 0 {
 					s.Flags = gen.FlagsSync
 				}
@@ -91,8 +104,15 @@ func c12Build(l *c12Layout) *c12Built {
 				ss = append(ss, s)
 			}
 			fr := gen.FFragment{Runs: []gen.FRun{{TrackID: 1, Samples: ss}}, LeadIn: l.LeadIn}
+			split := (l.Form == 3 || l.Form == 4) && len(ss) == 2
+			if split {
+				fr.Runs = []gen.FRun{{TrackID: 1, Samples: ss[:1]}}
+			}
 			if l.Tracks == 2 {
 				fr.Runs = append(fr.Runs, gen.FRun{TrackID: 2, Samples: []gen.FSample{{Dur: 5, Size: 2, Flags: gen.FlagsSync}}})
+			}
+			if split {
+				fr.Runs = append(fr.Runs, gen.FRun{TrackID: 1, Samples: ss[1:]})
 			}
 			fr.Emsg = l.Emsg == 2 || (l.Emsg == 1 && k == 0)
 			sg.Fragments = append(sg.Fragments, fr)
@@ -650,6 +670,11 @@ func c12Layouts(thorough bool) []*c12Layout {
 									continue
 								}
 								out = append(out, &c12Layout{Shape: sh, Tracks: tracks, Mech: mech, Emsg: emsg, SegSidx: ss, Base: uint64(tm[0]), Cto: int32(tm[1]), LeadIn: lead})
+								if thorough || (emsg == 0 && ss == 0 && lead == 0) {
+									for form := 1; form <= 4; form++ {
+										out = append(out, &c12Layout{Shape: sh, Tracks: tracks, Mech: mech, Emsg: emsg, SegSidx: ss, Base: uint64(tm[0]), Cto: int32(tm[1]), LeadIn: lead, Form: form})
+									}
+								}
 							}
 						}
 					}
@@ -667,7 +692,7 @@ func runC12(c *vf.Ctx) {
 	} else {
 		c.SetBudget(3 * 60 * 1e9)
 	}
-	c.Rule = "files are generated from an intended partition (ground truth by construction) with a raw writer: shapes of 1-3 segments x 1-2 fragments, 1-2 tracks, delimiter mechanism {styp, one top-level sidx, two sequential top-level sidx, mfra/tfra, none}, emsg {none, first fragment of each segment, every fragment}, 0/1/2 sidx inside each styp segment, first decode time/composition offset {0/0, 7/0, 7/2}, 0 or 4 unused bytes at the start of each mdat; decoded with all four flag combinations (ISM, start-on-moof) by both decoders; partition, order, byte-identical segment-mode re-encode, then UpdateSidx(add, nonZeroEPT in {false,true}) + Encode through the API and through the add-sidx example (overlay driver), with the written index checked against the actual box positions by an independent walker. A case = (layout, flags, decoder)."
+	c.Rule = "files are generated from an intended partition (ground truth by construction) with a raw writer: shapes of 1-3 segments x 1-2 fragments, 1-2 tracks, delimiter mechanism {styp, one top-level sidx, two sequential top-level sidx, mfra/tfra, none}, emsg {none, first fragment of each segment, every fragment}, 0/1/2 sidx inside each styp segment, first decode time/composition offset {0/0, 7/0, 7/2}, 0 or 4 unused bytes at the start of each mdat, reference-track runs in 5 forms (explicit durations / tfhd default / trex default, one or two truns per traf); decoded with all four flag combinations (ISM, start-on-moof) by both decoders; partition, order, byte-identical segment-mode re-encode, then UpdateSidx(add, nonZeroEPT in {false,true}) + Encode through the API and through the add-sidx example (overlay driver), with the written index checked against the actual box positions by an independent walker. A case = (layout, flags, decoder)."
 	c.Bound = "<= 3 segments x <= 2 fragments x <= 2 tracks; 1-2 samples per fragment"
 	layouts := c12Layouts(thorough)
 	c.Set("layouts", len(layouts))
